@@ -46,6 +46,7 @@ class G:
         self.srcs = []
         self.spellings = set()
         self.force_annot = False
+        self.force_capture = False
 
     def nid(self):
         i = self.next_id
@@ -61,7 +62,7 @@ class G:
         logs = "z(%d, %s); " % (i, logexpr) if logexpr else "z0(%d); " % i
         forms_free = ["plain", "paren", "matchy", "ret", "typed"]
         forms_annot = ["typed", "ret"]
-        capture = allow_capture and r.random() < 0.22
+        capture = allow_capture and (r.random() < 0.22 or self.force_capture)
         form = r.choice(forms_annot if (annotate or capture or self.force_annot) else forms_free)
         if rtype is None and form == "ret":
             form = "typed"
@@ -91,7 +92,7 @@ class G:
         """A non-closure operand (evaluated eagerly): `ze(ID, expr)`, sometimes as a block capture."""
         i = self.nid()
         t = "ze(%d, %s)" % (i, expr)
-        if self.rng.random() < 0.25:
+        if self.rng.random() < 0.25 or self.force_capture:
             c = self.nid()
             self.spellings.add("block")
             return "{ zc(%d); %s }" % (c, t), c
@@ -325,7 +326,7 @@ class G:
         """Two-parameter closure for fold / try_fold."""
         i = self.nid()
         r = self.rng
-        capture = r.random() < 0.25
+        capture = r.random() < 0.25 or self.force_capture
         if capture or r.random() < 0.5 or self.force_annot:
             t = "|acc: u32, v: u32| -> %s { z(%d, &(acc, v)); %s }" % (rtype, i, body)
         else:
@@ -784,7 +785,7 @@ def kind_ok(p):
     return True
 
 
-def gen_forced(pid, rng, kind, world, pick, nth, second=None):
+def gen_forced(pid, rng, kind, world, pick, nth, second=None, force_capture=False):
     """A program whose first branch reaches `world` by the shortest path, applies one chosen member there
     (pick(g, world, last) -> Member or None), optionally a second one, and finishes. Guarantees coverage of
     every transition / wrapper / adjacent pair regardless of what the random walk happens to visit."""
@@ -801,7 +802,19 @@ def gen_forced(pid, rng, kind, world, pick, nth, second=None):
         lo = g.next_id
         fn, nshapes = SRC[start]
         sid = g.nid()
+        if force_capture and not is_try:
+            # an earlier branch with eagerly invoked callbacks: an operand that is not hoisted is evaluated after them
+            w0 = "O"
+            fn0, n0 = SRC[w0]
+            sid0 = g.nid()
+            p.srcs.append((sid0, n0))
+            pre = [g.mk(g.transitions(w0, False)[0]), g.mk(g.transitions(w0, False)[5])]
+            p.branches.append(("%s(%d)" % (fn0, sid0), 0, w0, pre, (lo, g.next_id)))
+            lo = g.next_id
+            sid = g.nid()
+        g.force_capture = force_capture
         m = pick(g, world, True, nth)
+        g.force_capture = False
         if m is None:
             return None
         ms = path + [m]
@@ -896,6 +909,19 @@ def build_corpus(tier, seed):
                 for attempt in range(4):
                     if keep(gen_forced(0, rng, next_kind(), w, pick, ti)):
                         break
+    # (a'') every transition again with every operand written as a block capture, behind a branch with eager callbacks
+    cap_kinds = ["join", "join_spawn", "join", "spawn", "join_async", "join"]
+    ck = [0]
+    for w in WORLDS:
+        ts_sync = probe_g.transitions(w, False)
+        for ti in range(len(ts_sync)):
+            def pickc(g, world, is_last, nth):
+                ts = g.transitions(world, False)
+                return g.mk(ts[nth]) if nth < len(ts) else None
+            for attempt in range(4):
+                ck[0] += 1
+                if keep(gen_forced(0, rng, cap_kinds[ck[0] % len(cap_kinds)], w, pickc, ti, force_capture=True)):
+                    break
     # (a') the same for the async worlds (futures, try-futures, streams) under the async macros
     probe_a = G(random.Random(1), "async")
     akc = [0]
